@@ -3,12 +3,12 @@
 (* documents worth running are printed as JSON (one per line) by the invariant Emit.                *)
 (* Breadth-first mode enumerates the whole bounded family; -simulate samples longer documents.      *)
 (* The family: well-nested documents (closed, or cut at any point = unclosed), at most one FAULT -- *)
-(* a close that matches nothing, or a line with an XML-hostile character -- followed by at most     *)
-(* MaxTail further lines (so that "the rest of the document is missing" becomes observable).        *)
+(* a close that matches nothing, or a line with an XML-hostile character -- followed by a short     *)
+(* tail (so that "the rest of the document is missing" becomes observable).                         *)
 (* k=v lines are only generated inside a domain (the statement speaks of keys of domains).          *)
 EXTENDS Conf, Json
 CONSTANTS Names, Keys, Vals, Hos, Noise,   \* sets: domain names, keys, clean values, hostile lines, other lines
-          MaxLen, MaxDepth, MaxOpen, MaxKV, MaxNoise, MaxTail, UnclosedUpTo, TailVal
+          MaxLen, MaxDepth, MaxOpen, MaxKV, MaxNoise, MaxTail, UnclosedUpTo, TailVal, TailKey, TailName, DoMismatch
 VARIABLE doc
 L(t, k, v) == [t |-> t, k |-> k, v |-> v]
 Count(P(_)) == Cardinality({i \in 1..Len(doc) : P(doc[i])})
@@ -23,24 +23,26 @@ HosAll == {L("hos", "k1", "x&y"), L("hos", "k2", "1<2"), L("hos", "k2", "2>1"), 
 HosTwo == {L("hos", "k1", "x&y"), L("hos", "k2", "1<2")}
 HosNone == {}
 
+\* what follows a close that matches nothing: nothing, one more binding, or one more complete domain
+TailScripts(depth) == {<<>>} \cup (IF depth > 0 THEN {<<L("kv", TailKey, TailVal)>>} ELSE {})
+                      \cup {<<L("open", TailName, ""), L("kv", TailKey, TailVal), L("close", TailName, "")>>}
 Next ==
   LET r == Run(doc)
       n == Len(doc)
       depth == Len(r.stack)
       f == FaultAt(r)
       room(k) == n + 1 + k <= MaxLen          \* the line fits and the open domains can still be closed
-  IN IF f # 0
-     THEN \* after the fault: closes of the innermost domain (reference still running) or a few tail lines
-          /\ n < MaxLen
-          /\ \/ /\ r.fault = 0 /\ depth > 0 /\ doc' = Append(doc, L("close", Last(r.stack), ""))
-             \/ /\ n < f + MaxTail
-                /\ \/ \E k \in Keys : depth > 0 /\ doc' = Append(doc, L("kv", k, TailVal))
-                   \/ r.fault # 0 /\ \E m \in Names : doc' = Append(doc, L("close", m, ""))
+  IN IF r.fault # 0 THEN FALSE               \* nothing after a mismatched close and its tail
+     ELSE IF f # 0
+     THEN \* after a hostile line the reference is still running: close the open domains, with a few more bindings
+          \/ depth > 0 /\ doc' = Append(doc, L("close", Last(r.stack), ""))
+          \/ /\ depth > 0 /\ Cardinality({i \in (f + 1)..n : doc[i].t = "kv"}) < MaxTail
+             /\ doc' = Append(doc, L("kv", TailKey, TailVal))
      ELSE \/ \E m \in Names : /\ depth < MaxDepth /\ Count(LAMBDA l : l.t = "open") < MaxOpen /\ room(depth + 1)
                               /\ doc' = Append(doc, L("open", m, ""))
           \/ \E m \in Names : /\ depth > 0 /\ m = Last(r.stack) /\ doc' = Append(doc, L("close", m, ""))
-          \/ \E m \in Names : /\ (IF depth = 0 THEN TRUE ELSE m # Last(r.stack)) /\ n < MaxLen      \* the fault: mismatched close
-                              /\ doc' = Append(doc, L("close", m, ""))
+          \/ \E m \in Names : /\ (IF depth = 0 THEN TRUE ELSE m # Last(r.stack)) /\ n < MaxLen /\ DoMismatch
+                              /\ \E s \in TailScripts(depth) : doc' = Append(doc, L("close", m, "")) \o s
           \/ \E k \in Keys, v \in Vals : /\ depth > 0 /\ Count(LAMBDA l : l.t = "kv") < MaxKV /\ room(depth)
                                          /\ doc' = Append(doc, L("kv", k, v))
           \/ \E l \in Noise : /\ Count(LAMBDA x : x \in Noise) < MaxNoise /\ room(depth)
